@@ -21,7 +21,7 @@ import sys
 from lib.framework import Check, TimeLimit
 from harness import c12_engine as E
 from harness import c12_ops as O
-from gen import c12_sites
+from gen import c12_sites, c12_capture
 
 WORKER = os.path.join(os.path.dirname(os.path.abspath(__file__)), 'c12_worker.py')
 KNOWN_INDENT = 'C12-indent-specificities'
@@ -157,6 +157,10 @@ class C12(Check):
     def translate(self, ctx):
         files, rows = c12_sites.generate(ctx.repo)
         ctx.notes['writer_sites'] = len(rows)
+        gfiles, data = c12_capture.generate(ctx.repo)
+        ctx.notes['captured_grammars'] = ['%d:%s' % (i, g['name']) for i, g in enumerate(data['grammars'])]
+        ctx.notes['captured_standalone'] = data['standalone']
+        files.update(gfiles)
         return files
 
     def run(self, ctx):
